@@ -149,12 +149,23 @@ def cb_signal(eng, name, args):
     else:
         zs = [z3.IntVal(SIG_NAMES.get(name, 0)), arg(0, TStr), arg(1, TInt), arg(2, TStr) if len(args) > 2 else mk_str_const('').z]
     sig = St.mk(*zs)
-    g['signals'] = V(g['signals'].t, z3.Concat(g['signals'].z, z3.Unit(sig)))
+    from pyvc import lists as L
+    g['signals'] = V(g['signals'].t, L.l_append(g['signals'].t, g['signals'].z, sig))
+    S = TStr.sort()
     if name == 'send_bundle_finished' and 'tx_finished' in g and args[0].t is TStr:
-        S = TStr.sort()
         tf = g['tx_finished']
         bid = args[0].z
+        # C18: a transfer never gets more than one finished signal
+        eng.ob('finished_once', 'send_bundle_finished@%s' % eng.frame.name,
+               z3.Implies(S.is_of_int(bid), z3.Not(z3.Select(tf.z, S.int_val(bid)))), props=('C18',))
         g['tx_finished'] = V(tf.t, z3.If(S.is_of_int(bid), z3.Store(tf.z, S.int_val(bid), True), tf.z))
+        if 'tx_live' in g:
+            tl = g['tx_live']
+            g['tx_live'] = V(tl.t, z3.If(S.is_of_int(bid), z3.Store(tl.z, S.int_val(bid), False), tl.z))
+    if name == 'recv_bundle_finished' and 'rx_live' in g and args[0].t is TStr:
+        rl = g['rx_live']
+        bid = args[0].z
+        g['rx_live'] = V(rl.t, z3.If(S.is_of_int(bid), z3.Store(rl.z, S.int_val(bid), True), rl.z))
 
 
 def cb_tuple(eng, v):
@@ -196,8 +207,9 @@ def _fld(eng, pkt, layer_idx, name):
 
 def _len_ext(eng, pkt):
     '''(has_len_ext, len_ext) of a TransferSegment: a TransferTotalLength item among ext_items.'''
+    from pyvc import lists as L
     items = _fld(eng, pkt, 1, 'ext_items')
-    n = z3.Length(items.z)
+    n = L.l_len(items.t, items.z)
     teh = eng.pkt_schema('TransferExtendHeader')
     pcls = eng.heap_arr(('pkt:TransferExtendHeader', '_pcls'), TInt)
     pay = eng.heap_arr(('pkt:TransferExtendHeader', 'payload'), TInt)
@@ -207,10 +219,10 @@ def _len_ext(eng, pkt):
     tot = ttl_sc.fields['total_length']
 
     def is_ttl(i):
-        return z3.And(n > i, z3.Select(pcls, items.z[i]) == tag)
+        return z3.And(n > i, z3.Select(pcls, L.l_get(items.t, items.z, i)) == tag)
 
     def val(i):
-        return tot.val(z3.Select(tl, z3.Select(pay, items.z[i])))
+        return tot.val(z3.Select(tl, z3.Select(pay, L.l_get(items.t, items.z, i))))
     has = z3.Or(is_ttl(0), is_ttl(1))
     ln = z3.If(is_ttl(0), val(0), val(1))
     return has, ln
@@ -320,7 +332,8 @@ def _cert_values(certz, kname):
     has = z3.Function('cert_has_ext_SUBJECT_ALTERNATIVE_NAME', TAny('cert').sort(), z3.BoolSort())
     ext = z3.Function('cert_ext_SUBJECT_ALTERNATIVE_NAME', TAny('cert').sort(), TAny('certext').sort())
     vals = z3.Function('san_values_' + kname, TAny('certext').sort(), lt.sort())
-    return V(lt, z3.If(has(certz), vals(ext(certz)), z3.Empty(lt.sort())))
+    from pyvc import lists as L
+    return V(lt, z3.If(has(certz), vals(ext(certz)), L.l_empty(lt)))
 
 
 def sb_cert_values(eng, cert, key):
@@ -375,8 +388,9 @@ def _items_of(eng, items):
 
 
 def _len_ext_items(eng, items):
+    from pyvc import lists as L
     isnone, lst = _items_of(eng, items)
-    n = z3.Length(lst.z)
+    n = L.l_len(lst.t, lst.z)
     pcls = eng.heap_arr(('pkt:TransferExtendHeader', '_pcls'), TInt)
     pay = eng.heap_arr(('pkt:TransferExtendHeader', 'payload'), TInt)
     ttl_sc = eng.pkt_schema('TransferTotalLength')
@@ -385,10 +399,10 @@ def _len_ext_items(eng, items):
     tag = class_tag('TransferTotalLength')
 
     def is_ttl(i):
-        return z3.And(z3.Not(isnone), n > i, z3.Select(pcls, lst.z[i]) == tag)
+        return z3.And(z3.Not(isnone), n > i, z3.Select(pcls, L.l_get(lst.t, lst.z, i)) == tag)
 
     def val(i):
-        return tot.val(z3.Select(tl, z3.Select(pay, lst.z[i])))
+        return tot.val(z3.Select(tl, z3.Select(pay, L.l_get(lst.t, lst.z, i))))
     return z3.Or(is_ttl(0), is_ttl(1)), z3.If(is_ttl(0), val(0), val(1)), z3.If(isnone, 0, n)
 
 
